@@ -5,7 +5,10 @@ from ..common import rng
 def run(ctx):
     rnd = rng("C16")
     scs = nsplane.family_reject(rnd, ctx.tier)
-    scs += nsplane.family_reject_random(rnd, 60 if ctx.tier == "quick" else 2500)
+    rr = nsplane.family_reject_random(rnd, 60 if ctx.tier == "quick" else 2500)
+    for sc in rr[200:]:
+        sc["nomodel"] = True          # Layer A explores the first 200; every one is run and judged by Trace_NS
+    scs += rr
     ctx.rule = ("every rejection class (missing source, directory without -r, several sources onto a non-directory, directory onto a file, "
                 "source == destination, source == mapped target, contradictory/unknown option values, malformed or empty glob) x position of "
                 "the offending argument among valid ones x destination state (absent, empty dir, populated, file) x both drivers; the oracle "
